@@ -36,6 +36,7 @@ type c13Params struct {
 	waits       []int // announced wait times (ms) to choose from
 	flat        bool
 	busyAtStart bool
+	slowWrites  int // up to this many transmissions block in the socket write (pause/2, pause, 2*pause)
 }
 
 func c13Run(p c13Params) func() {
@@ -45,6 +46,22 @@ func c13Run(p c13Params) func() {
 		sock.LogHandoff = true
 		r, _ := knx.NewRouterOnSocket(sock, knx.RouterConfig{RetainCount: 4, PostSendPauseDuration: Pp})
 		busyLeft := p.maxBusy
+		slowLeft := p.slowWrites
+		sock.WriteTime = func(v knxnet.ServicePackable) mc.Duration {
+			if _, ok := v.(*knxnet.RoutingInd); !ok || slowLeft == 0 {
+				return 0
+			}
+			c := mc.Choose(4, mc.Fault)
+			if c == 0 {
+				return 0
+			}
+			slowLeft--
+			unit := Pp
+			if unit == 0 {
+				unit = 10 * ms
+			}
+			return []mc.Duration{0, unit / 2, unit, 2 * unit}[c]
+		}
 		busy := func() {
 			w := p.waits[mc.Choose(len(p.waits), mc.Free)]
 			ctl := uint16(mc.Choose(2, mc.Free)) // 0 adds the random term, 1 does not
@@ -116,8 +133,9 @@ func c13Oracle(p c13Params) func(tr *mc.Trace) []h.Violation {
 		}
 		sends := map[int]*send{}
 		type txev struct {
-			t  mc.Duration
+			t  mc.Duration // the write returned
 			id int
+			t0 mc.Duration // the write was entered
 		}
 		var txs []txev
 		type busyev struct {
@@ -136,7 +154,7 @@ func c13Oracle(p c13Params) func(tr *mc.Trace) []h.Violation {
 			case fakesock.Sent:
 				if ri, ok := x.Svc.(*knxnet.RoutingInd); ok && x.Err == nil {
 					id := MsgID(ri.Payload)
-					txs = append(txs, txev{e.T, id})
+					txs = append(txs, txev{e.T, id, x.T0})
 					if s := sends[id]; s != nil {
 						if s.hasTx {
 							bad("sent-twice", "message %d transmitted twice (%v and %v) without a lost indication", id, s.tx, e.T)
@@ -162,8 +180,8 @@ func c13Oracle(p c13Params) func(tr *mc.Trace) []h.Violation {
 		sort.SliceStable(txs, func(i, j int) bool { return txs[i].t < txs[j].t })
 		// (i)
 		for i := 1; i < len(txs); i++ {
-			if d := txs[i].t - txs[i-1].t; d < Pp {
-				bad("pacing", "messages %d and %d left the socket %v apart (at %v and %v); the post-send pause is %v", txs[i-1].id, txs[i].id, d, txs[i-1].t, txs[i].t, Pp)
+			if d := txs[i].t0 - txs[i-1].t; d < Pp {
+				bad("pacing", "message %d had left the socket at %v, message %d was handed to the socket %v later (at %v); the post-send pause is %v", txs[i-1].id, txs[i-1].t, txs[i].id, d, txs[i].t0, Pp)
 				break
 			}
 		}
@@ -226,6 +244,8 @@ func init() {
 	register("both", &h.Scenario{Name: "C13-pause20-3x1-busy1-allwaits", Prop: "C13", P: 2, F: 1, D: 2, Run: c13Run(c), Check: c13Oracle(c)})
 	d := c13Params{pause: 5, senders: 1, perSender: 3, maxBusy: 3, waits: []int{10, 100}}
 	register("both", &h.Scenario{Name: "C13-pause5-1x3-storm3", Prop: "C13", P: 1, F: 3, D: 1, Run: c13Run(d), Check: c13Oracle(d)})
+	sw := c13Params{pause: 20, senders: 2, perSender: 2, maxBusy: 1, waits: []int{10, 100}, slowWrites: 2}
+	register("both", &h.Scenario{Name: "C13-pause20-2x2-slow-writes", Prop: "C13", P: 1, F: 2, D: 1, Run: c13Run(sw), Check: c13Oracle(sw)})
 	f := c13Params{pause: 20, senders: 8, perSender: 25, flat: true}
 	register("both", &h.Scenario{Name: "C13-flat-8x25", Prop: "C13", P: 0, F: 0, D: -1, Run: c13Run(f), Check: c13Oracle(f)})
 	t1 := c13Params{pause: 20, senders: 3, perSender: 2, maxBusy: 3, waits: []int{0, 10, 50, 100, 500}, busyAtStart: true}
